@@ -39,6 +39,9 @@ OP = st.one_of(
               st.sampled_from(["file", "file", "tree", "link"])),
     st.tuples(st.just("put"), st.integers(0, len(SLOTS) - 1), st.sampled_from(["abs", "rel"]),
               st.sampled_from(["file", "tree"])),
+    st.tuples(st.just("put"), st.integers(0, len(SLOTS) - 1), st.sampled_from(["abs", "rel"]),
+              st.sampled_from(["file", "tree"])),
+    st.tuples(st.just("put"), st.sampled_from([0, 5, 8]), st.just("abs"), st.just("file")),
     st.tuples(st.just("restore"), st.integers(0, len(DIRS) - 1), st.integers(0, 7),
               st.sampled_from([None, "date", "path", "none"])),
     st.tuples(st.just("rm"), st.sampled_from(PATTERNS)),
@@ -50,7 +53,7 @@ OP = st.one_of(
 
 @st.composite
 def strategy_(draw, tier):
-    return {"ops": [list(o) for o in draw(st.lists(OP, min_size=3, max_size=25))],
+    return {"ops": [list(o) for o in draw(st.lists(OP, min_size=6, max_size=30))],
             "top": draw(st.sampled_from(["absent", "sticky", "nonsticky"])),
             "top2": draw(st.sampled_from(["absent", "sticky"])),
             "uid": draw(st.sampled_from([1000, 0])),
